@@ -4,8 +4,9 @@
 set -e
 FL=${1:-rel}
 cd "$(dirname "$0")/.."
-B=/verif/build/$FL
-OUT=/verif/build/drivers/$FL
+REPO=${VERIF_REPO:-/repo}
+B=${VERIF_BUILD:-/verif/build}/$FL
+OUT=${VERIF_BUILD:-/verif/build}/drivers/$FL
 mkdir -p $OUT
 case $FL in
   rel)  FLAGS="-O1 -DNDEBUG";;
@@ -15,7 +16,7 @@ esac
 for src in harness/drivers/*.cc; do
   name=$(basename $src .cc)
   if [ ! -x $OUT/$name ] || [ $src -nt $OUT/$name ] || [ $B/lib/libopensmt.a -nt $OUT/$name ]; then
-    g++ -std=c++20 $FLAGS -DOPENSMT_VERIF_TRACE -I/repo/src -I$B/src -o $OUT/$name $src $B/lib/libopensmt.a -lgmpxx -lgmp -lpthread \
+    g++ -std=c++20 $FLAGS -DOPENSMT_VERIF_TRACE -I$REPO/src -I$B/src -o $OUT/$name $src $B/lib/libopensmt.a -lgmpxx -lgmp -lpthread \
       > $OUT/$name.log 2>&1 || { grep -m5 -A3 "error" $OUT/$name.log >&2; exit 2; }
   fi
 done
